@@ -23,7 +23,8 @@ Rules taken from the library-wide statements C09/C02 where the language leaves a
 
 A program that is not error-free in the sense of the property (empty or deleted handle used, multiplicity exceeded,
 unrelate of an unrelated pair, delete of an instance that still has links, read of an unset referential attribute,
-division by zero, step / invocation budget exceeded, variable read outside its block ...) raises `OutOfDomain`: the
+division by zero, integer beyond 32 bits, string beyond 256 characters, step / invocation budget exceeded, variable read
+outside its block ...) raises `OutOfDomain`: the
 callers skip it.  The same holds for a side effect (create, delete, relate, unrelate, attribute write) performed while a
 where clause or an operand of and/or is being evaluated: how often those are evaluated is not fixed by the property.
 """
@@ -781,7 +782,17 @@ class Machine(object):
             return not v
         if isinstance(v, bool) or not isinstance(v, int):
             raise OutOfDomain('sign on non-integer')
-        return -v if op == '-' else v
+        return self.sized(-v) if op == '-' else v
+
+    @staticmethod
+    def sized(v):
+        """Integers stay within 32 bits and strings within 256 characters (larger values: outside the bounded space)."""
+        if isinstance(v, str):
+            if len(v) > 256:
+                raise OutOfDomain('string too long')
+        elif not -2 ** 31 <= v < 2 ** 31:
+            raise OutOfDomain('integer overflow')
+        return v
 
     @staticmethod
     def _kind(v):
@@ -808,15 +819,15 @@ class Machine(object):
         if op == '!=':
             return a != b
         if op == '+' and ka == 'str':
-            return a + b
+            return self.sized(a + b)
         if ka != 'int':
             raise OutOfDomain('operand types')
         if op == '+':
-            return a + b
+            return self.sized(a + b)
         if op == '-':
-            return a - b
+            return self.sized(a - b)
         if op == '*':
-            return a * b
+            return self.sized(a * b)
         if op == '<':
             return a < b
         if op == '<=':
